@@ -26,7 +26,17 @@ def run():
     o2 = '@charset "UTF-8";\na {\n  p: "aéb";\n}\nb {\n  q: r;\n}\n'
     good = [ev(0, it_str, res("ok", o1), res("ok", o1)), ev(1, it_str, res("err"), res("none")), ev(2, it_str, res("ok", o1), res("ok", o2)),
             ev(3, [{"k": "zzz", "cls": "latin1", "cps": [233]}], res("ok", o1), res("err"))]
+    it_c = [{"k": "comment", "cls": "cmt", "cps": [10, 97, 10]}]
+    it_cr = [{"k": "c_rule", "cls": "cmt", "cps": [32, 97, 10, 98, 32]}]
+    oc = "/*\na\n*/\n\n/* x\n\ny */\n"
+    ocr = "a {\n  /* a\n  b */\n  p: v;\n}\n"
+    good.append(ev(4, it_c, res("ok", oc), res("ok", oc.replace("*/\n\n/*", "*/\n/*"))))        # a blank line between comments does not count
     bad = {
+        "comment_final_newline_lost": ev(2, it_c, res("ok", oc), res("ok", oc.replace("a\n*/", "a*/"))),
+        "comment_blank_line_lost": ev(2, it_c, res("ok", oc), res("ok", oc.replace("x\n\ny", "x\ny"))),
+        "comment_reindent_no_dev": ev(2, it_cr, res("ok", ocr), res("ok", ocr.replace("  b */", "    b */"))),
+        "comment_text_changed_under_dev": ev(2, it_cr, res("ok", ocr), res("ok", ocr.replace("  b */", "    c */")), devs=["comment_reindent_grows"]),
+        "comment_newline_lost_under_dev": ev(2, it_c, res("ok", oc), res("ok", oc.replace("a\n*/", "a*/")), devs=["comment_reindent_grows"]),
         "codepoint_changed": ev(2, it_str, res("ok", o1), res("ok", o2.replace("é", "e"))),
         "reread_failed": ev(2, it_str, res("ok", o1), res("err")),
         "line_lost": ev(2, it_str, res("ok", o1), res("ok", o2.replace("  q: r;\n", ""))),
@@ -47,8 +57,9 @@ def run():
     r1 = tlc.validate_trace("Trace_RoundTrip", "Trace_RoundTrip.cfg", write("bad", good[:2] + [bad["codepoint_changed"]] + good[3:]), work, timeout=120)
     # run 2 (Self_RoundTrip: expect per event): good / known accepted, every faulty round trip rejected
     allev = [dict(e, expect="accept") for e in good] + [dict(cases[1][1][2], expect="accept")] + [dict(b, expect="reject") for b in bad.values()]
+    allev.insert(len(good) + 1, dict(ev(2, it_cr, res("ok", ocr), res("ok", ocr.replace("  b */", "    b */")), devs=["comment_reindent_grows"]), expect="accept"))
     r2 = tlc.validate_trace("Self_RoundTrip", "Self_RoundTrip.cfg", write("all", allev), work, timeout=120)
-    flipped = list(allev); flipped[len(good) + 2] = dict(flipped[len(good) + 2], expect="accept")
+    flipped = list(allev); flipped[len(good) + 2] = dict(flipped[len(good) + 2], expect="accept")      # the first "reject" event
     r3 = tlc.validate_trace("Self_RoundTrip", "Self_RoundTrip.cfg", write("flip", flipped), work, timeout=120)
     out = [(r1["accepted"], r1["unmatched"]), (r2["accepted"], r2["unmatched"]), (r3["accepted"], r3["unmatched"])]
     import shutil; shutil.rmtree(work, ignore_errors=True)
